@@ -586,6 +586,8 @@ func errClass(err error) string {
 	switch {
 	case errors.Is(err, context.DeadlineExceeded):
 		return "timeout"
+	case strings.Contains(s, "cannot be encoded in the"):
+		return "E:pnfit"
 	case strings.Contains(s, "does not fit the packet buffer"):
 		return "E:nofit"
 	case strings.Contains(s, "BuildFlight"):
@@ -885,7 +887,7 @@ func (rn *runner) genBase(r *vh.Rand) string {
 		}
 		tok = fmt.Sprintf("p:%s:%d", hex.EncodeToString(r.Bytes(pl)), tl)
 	}
-	udp := []int{0, 0, 1200, 1250, 1357}[r.Intn(5)]
+	udp := []int{0, 0, 0, 1200, 1250, 1357, 1200, 1357, 1452, 1500, 2000}[r.Intn(11)] // above 1452: capped at the buffer
 	chBase := []string{"ff", "ff", "c115", "c146"}[r.Intn(4)]
 	pad := []int{0, 0, 300, 900, 1500, 2200, 2900}[r.Intn(7)]
 	fb := "nil"
